@@ -93,11 +93,20 @@ VERIF_HARNESS(c18_send) {
     /* tidy up for the leak check */
     coap_queue_t *n = coap_pop_next(&ne_ctx);
     coap_delete_node_lkd(n);
+    VERIF_ASSERT(ne_sess.con_active == 1, "send: a transmitted Confirmable holds one NSTART slot");
+    ne_sess.con_active--;        /* the exchange completes (what the ACK path does) */
   }
+  VERIF_ASSERT(ne_sess.con_active == 0, "send: a send that failed holds no NSTART slot");
   env_alloc_fail_enabled = 0;
   {
-    coap_pdu_t *p2 = coap_pdu_init(COAP_MESSAGE_NON, 1, 0x4322, 256);
+    /* the next operation is another Confirmable: it must go out, not wait for an NSTART slot nobody will ever release */
+    int tx_before = ne_tx_count;
+    coap_pdu_t *p2 = coap_pdu_init(COAP_MESSAGE_CON, 1, 0x4322, 256);
     VERIF_ASSERT(p2 && coap_send_internal(&ne_sess, p2) != COAP_INVALID_MID, "send: with memory available the next send succeeds");
+    VERIF_ASSERT(ne_tx_count == tx_before + 1 && ne_sess.delayqueue == NULL,
+                 "send: with memory available the next Confirmable is transmitted (the failed send did not keep an NSTART slot)");
+    coap_queue_t *n2 = coap_pop_next(&ne_ctx);
+    coap_delete_node_lkd(n2);
   }
 #ifdef WITNESS
   if (r == COAP_INVALID_MID) VERIF_REACH("send: failed after the allocation failure");
